@@ -14,7 +14,8 @@ THEOREMS = ["C18_builtin", "C18_earth_object", "C18_set_ellipsoid", "C18_on_elli
             "C18_distance_equator", "C18_distance_value", "C18_parallax_correction_closed_form",
             "C18_parallax_declination_bound", "C18_central_angle", "C18_distance_great_circle",
             "C18_distance_great_circle_angle", "C18_builtin_flattening", "C18_parallax_displacement_bound", "C18_rho_bound",
-            "C18_parallax_dalpha_tan"]
+            "C18_parallax_dalpha_tan", "C18_andoyer_meridian_first_order", "C18_distance_meridian_arc",
+            "C18_distance_meridian_arc_angle"]
 PROOF_TIMEOUT = {"quick": 1500, "thorough": 3000}
 EXHAUSTIVE = False
 MANIFEST = {
@@ -33,9 +34,10 @@ MANIFEST = {
             "and returned direction <= asin(rho sin(8.794'')/distance) <= asin(C/distance), C = (1+|h|/a) sin(8.794''), for distance > C (rho <= 1+|h|/a proved). "
             "Binary64 incl. the poles: bit-exact correspondence model vs implementation every run + oracle. "
             "Parallax_ecliptical: closed form + the same displacement bound as thorough-tier obligations (C18_thorough.v). "
-            "Searched, not proved: meridian arc vs integral of rm, exactly antipodal pairs, all rounding.",
+            "Meridian arc: |RInt rm - distance| <= 2 f^2 a dphi for f <= 0.01 and <= 1e-4 of the arc for f <= 0.007 (Coquelicot RInt; Andoyer = integral of the first-order expansion of rm). "
+            "Searched, not proved: exactly antipodal pairs, meridian clause at 1e-4 for 0.007 < f <= 0.01, all rounding.",
     "technique": "symbolic evaluation (pyrun) of the generated model over Coq reals + real analysis (lra/nra/field, "
-                 "Reals trigonometry: cos_atan, atan_tan, sin/cos monotonicity, Rpower) + bit-exact differential "
+                 "Reals trigonometry: cos_atan, atan_tan, sin/cos monotonicity, Rpower; Coquelicot RInt/auto_derive; Coq-Interval; Lagrange/Cauchy-Schwarz vector identities) + bit-exact differential "
                  "correspondence + oracle search with independent closed forms, Simpson integration and vector parallax",
     "design_ref": "8/C18",
 }
@@ -63,7 +65,8 @@ CLAUSES = {
     "distance along the equator = (a |delta lambda|, round(a |delta lambda| f^2)) for 0 < |delta lambda| < 180 deg": "proved [ideal, C18_distance_equator, explicit value]; searched (1e-12 rel)",
     "distance closed form (pins the code): (0,0) if s = 0, ZeroDivisionError if c = 0, else Andoyer's formula with round(dist f^2, 0), every float input":
         "proved [ideal, C18_distance_value; the spec `andoyer` is a transcription of the code: it pins the code against change and carries the symmetry/coincident/equator theorems, it is no property by itself]",
-    "distance along a meridian = integral of rm (1e-4)": "unproved (searched): needs a quantitative error analysis of Andoyer's first-order formula; Simpson integration of the implementation's rm, built-in ellipsoids 1e-4, user ellipsoids max(1e-4, 3 f^2)",
+    "distance along a meridian = integral of rm (1e-4)":
+        "proved [ideal, C18_distance_meridian_arc(_angle) + C18_andoyer_meridian_first_order; Coquelicot RInt of mer_radius = the function Earth.rm computes (rm_ok): for one meridian, latitudes p1 < p2 < p1 + 180 deg, a > 0, 0 <= f <= 0.01: the integral exists and |arc - D| <= 2 f^2 a (phi2 - phi1); for f <= 0.007 (IAU76, WGS84; user ellipsoids up to 0.007) |arc - D| <= 1e-4 arc. Mechanism: Andoyer as coded is EXACTLY the integral of the first-order expansion a(1 - 2f + 3f sin^2 phi), and |rm - expansion| <= 2 f^2 a pointwise (polynomial factorisations + interval). Not proved: 0.007 < f <= 0.01 at 1e-4 (the true deviation there is about f^2 = 1e-4: searched with max(1e-4, 3f^2)), p2 - p1 = 180 deg exactly (antipodal through the poles), binary64 rounding]",
     "distance within 0.6 % of the great-circle distance":
         "proved [ideal, C18_distance_great_circle(_angle) + C18_central_angle + C18_builtin_flattening: for every pair that is neither coincident nor exactly antipodal (s > 0, c > 0) and every a > 0, f >= 0: a sigma (1-2f) <= D <= a sigma (1+f), sigma = central angle (haversine formula proved); for f <= 0.00359 (IAU76, WGS84) |D - R sigma| <= 0.006 R sigma with the mean radius R = (2a+b)/3. With R = a the clause is false (2f = 0.67 % along a meridian at the equator). Exactly antipodal pairs and binary64 rounding: searched]",
     "parallax_correction closed form (after repairs 5494b49/2d034b9): delta_alpha = atan2(B, A), dec' = atan2(sin d - rho_sin k, hypot(A, B)), WGS84 observer":
@@ -81,7 +84,7 @@ CLAUSES = {
 def proof_files(tier):
     fs = ["C18_tac.v", "C18_spec.v", "C18_defs.v", "C18_bridge.v", "C18_rp.v", "C18_lv.v", "C18_rm.v",
           "C18_dist_f.v", "C18_dist_a.v", "C18_dist.v", "C18_main.v", "C18_par.v", "C18_parbound.v", "C18_gc.v", "C18_gcm.v",
-          "C18_parvec.v", "C18_parm.v"]
+          "C18_parvec.v", "C18_parm.v", "C18_mer.v", "C18_merint.v", "C18_merm.v"]
     if tier == "thorough":
         # extra obligations (not in THEOREMS, which is the same in both tiers): Earth.parallax_ecliptical closed form
         # (three branches, ~4 min of symbolic evaluation each, compiled in parallel) and its displacement bound;
